@@ -107,6 +107,22 @@ func verifStub_fmt_Fprintf(w io.Writer, format string, a ...any) (int, error) {
 	}
 	return len(format), nil
 }
+func verifStub_fmt_Fprintln(w io.Writer, a ...any) (int, error) {
+	if f, ok := w.(*os.File); ok {
+		verifHandle(f).text++
+	}
+	return 1, nil
+}
+func verifStub_fmt_Fprint(w io.Writer, a ...any) (int, error) {
+	if f, ok := w.(*os.File); ok {
+		verifHandle(f).text++
+	}
+	return 1, nil
+}
+func verifStub_fmt_Print(a ...any) (int, error) {
+	verifHandle(os.Stdout).text++
+	return 1, nil
+}
 
 // ---- OS file system ----
 
